@@ -94,3 +94,43 @@ Definition c33_layout (name wtroot commonroot : string) (detached : bool) : out 
   if add_ok (unhex name) detached
   then OOk (map OBytes (add_files (unhex name) (unhex wtroot) (unhex commonroot) (s "$C") detached))
   else OErr "add".
+
+(* ------------------------------------------------------------ worktree.Open: which storage *)
+
+(* getDualFS reads at most 1024 bytes of <wt>/.git: fewer than 9 bytes, or not
+   starting with "gitdir", is "not a linked worktree"; otherwise the pointer is
+   strings.TrimSpace(data[8:]) *)
+Definition is_space (c : N) : bool := (c =? 32) || ((9 <=? c) && (c <=? 13)).
+Fixpoint trim_left (l : bytes) : bytes :=
+  match l with c :: r => if is_space c then trim_left r else l | [] => [] end.
+Definition trim (l : bytes) : bytes := rev (trim_left (rev (trim_left l))).
+
+Definition parse_dotgit (file : bytes) : option bytes :=
+  let data := firstn 1024 file in
+  if Nat.ltb (List.length data) 9 then None
+  else if beqb (firstn 6 data) (s "gitdir") then Some (trim (skipn 8 data))
+  else None.
+
+Definition is_abs (p : bytes) : bool := match p with c :: _ => c =? SL | [] => false end.
+(* a relative pointer is taken relative to the worktree root *)
+Definition resolve (wtroot p : bytes) : bytes := if is_abs p then p else wtroot ++ [SL] ++ p.
+
+Inductive open_res := OpenErr | OpenMain | OpenDual.
+
+(* Worktree.Open(wt): dotgit = the bytes of <wt>/.git if it can be read;
+   admin_ok d = the directory d holds a repository's HEAD (git.Open succeeds on
+   the dual filesystem rooted there).  Only a directory that is NOT a linked
+   worktree (no gitdir file) is served from the main storage. *)
+Definition go_open (wtroot : bytes) (dotgit : option bytes) (admin_ok : bytes -> bool) : open_res :=
+  match dotgit with
+  | None => OpenMain
+  | Some file =>
+    match parse_dotgit file with
+    | None => OpenMain
+    | Some p => if admin_ok (resolve wtroot p) then OpenDual else OpenErr
+    end
+  end.
+
+Definition c33_open (wtroot : string) (dotgit : option string) (ok : bool) : out :=
+  OSym (match go_open (unhex wtroot) (option_map unhex dotgit) (fun _ => ok) with
+        | OpenErr => "err" | OpenMain => "main" | OpenDual => "dual" end).
